@@ -18,6 +18,8 @@ structure FState where
   stacks : List (Nat × List Actor) := []      -- OS thread -> actors, innermost first
   inline : List Nat := []                     -- frames that continued without suspending
   ids : List (Nat × Nat × Nat) := []          -- (frame, slot, version) of every emplace
+  ctx : List (Nat × Nat) := []                -- frame ↦ context it currently runs in
+  rej : List Nat := []                        -- OS threads on which an executor has just rejected a resumption
   nalloc : Nat := 0
 
 def FState.stack (r : FState) (t : Nat) : List Actor :=
@@ -65,7 +67,8 @@ def holdsLock (r : FState) (a : Actor) : Bool :=
   | .wLink .. | .oScan .. | .oUnlock .. | .aScan .. | .aUnlock .. | .cRemove .. => true
   | _ => false
 
-def parseExec (s : String) : Option Nat := nameNum "e" s
+/-- `e<k>`; `e-1` (the thread is in no executor) is an index no frame is bound to -/
+def parseExec (s : String) : Option Nat := if s == "e-1" then some 1000 else nameNum "e" s
 
 def allActors (_r : FState) : List Actor :=
   (List.range 64).map Actor.cl
@@ -98,14 +101,19 @@ def stepFutex (r : FState) (o : Obs) : Except String FState :=
         let r := (allActors r).foldl (fun r b => match isResumePc (r.s.pc b) with
           | some n => if (r.s.node n).h = h ∧ r.s.fr h = .suspended then fireSilent r b else r
           | none => r) r
-        if e ≠ r.s.fex h then .error s!"frame {h} continues on executor {e}, the model binds it to {r.s.fex h}"
-        else if r.s.fr h = .resuming then
-          .ok ({ r with s := r.s.run h }.setStack t (.fr h :: (r.stack t).erase (.fr h)))
+        if r.s.fr h = .resuming then
+          -- an executor that refuses the closure (`invoke` != 0) makes the library resume in place
+          if e ≠ r.s.fex h ∧ ¬ r.rej.contains t then .error s!"frame {h} continues on executor {e}, the model binds it to {r.s.fex h}"
+          else
+          .ok ({ r with s := r.s.run h, rej := r.rej.erase t, ctx := (h, e) :: r.ctx.filter (·.1 ≠ h) }.setStack t (.fr h :: (r.stack t).erase (.fr h)))
         else if k == "resumed" ∧ r.s.fr h = .running ∧ r.inline.contains h ∧ a = .fr h then
-          .ok { r with inline := r.inline.erase h }
+          -- no suspension: the frame continues where it runs
+          if (r.ctx.find? (·.1 == h)).map (·.2) ≠ some e then .error s!"frame {h} continues inline on executor {e}, it runs on {reprStr (r.ctx.find? (·.1 == h))}"
+          else .ok { r with inline := r.inline.erase h }
         else .error s!"frame {h} continues but the model has it {reprStr (r.s.fr h)} with no resume pending"
       | _, _ => .error "bad event"
     else if k == "token" then .ok r
+    else if k == "xreject" then .ok { r with rej := t :: r.rej }
     else if k == "ret" then
       -- ret <call> <value>
       let r := fireSilent r (.cl t)
